@@ -544,3 +544,17 @@ PROPS['C09']['verus'] = PROPS['C09']['verus'] + ['api', 'ticker']
 PROPS['C09']['verus_only']['api'] = [r'CacheD::put_or_update$', r'CacheD::put_with_ttl$', r'CacheD::put_with_weight_and_ttl$']
 PROPS['C09']['verus_only']['ticker'] = [r'TTLTicker::put$', r'TTLTicker::update$', r'TTLTicker::delete$']
 PROPS['C09']['assumptions'] = PROPS['C09']['assumptions'] + API_ASSUME + TICKER_ASSUME
+
+# unit `weights`: CacheWeight::{add, delete, is_space_available_for, get_weight_used, contains, weight_of, clear} for any number of residents
+# and the full i64 range, against assumed DashMap / RwLock contracts (rule T15); `update` stays with Kani
+WEIGHTS_ASSUME = ['dashmap::DashMap and parking_lot::RwLock<Weight> (ASSUMED contracts of the dependencies, unit `weights`): map calls act as on a mathematical map; '
+                  'T15: `*guard += e` / `*guard -= e` / `*guard = e` / `*lock.read()` on the lock-protected total are written as methods of the guard stand-in; '
+                  'that the delete hook is called exactly once with the id\'s key is decided by kani:cw/delete_n2 (a closure cannot carry the ghost token)']
+for _p, _only in (('C01', [r'CacheWeight::add$', r'CacheWeight::delete$', r'CacheWeight::is_space_available_for$', r'CacheWeight::get_weight_used$', r'CacheWeight::clear$']),
+                  ('C05', [r'CacheWeight::add$', r'CacheWeight::delete$', r'CacheWeight::contains$', r'CacheWeight::weight_of$']),
+                  ('C06', [r'CacheWeight::is_space_available_for$', r'CacheWeight::add$', r'CacheWeight::delete$']),
+                  ('C04', [r'CacheWeight::delete$']), ('C16', [r'CacheWeight::add$', r'CacheWeight::delete$']), ('C17', None)):
+    PROPS[_p]['verus'] = PROPS[_p]['verus'] + ['weights']
+    if _only is not None:
+        PROPS[_p].setdefault('verus_only', {})['weights'] = _only
+    PROPS[_p]['assumptions'] = PROPS[_p]['assumptions'] + WEIGHTS_ASSUME
